@@ -5,6 +5,6 @@ EmitLine(rec) ==
   Serialize(ToJson(rec) \o "\n", OutFile,
             [format |-> "TXT", charset |-> "UTF-8", openOptions |-> <<"WRITE", "CREATE", "APPEND">>]).exitValue = 0
 \* one case per initial state, with what the specification says comes out (-1: nothing is emitted, -2: the code panics)
-Emit == stage = "done" => EmitLine([t |-> opts.t, f |-> opts.f, r |-> opts.r, sink |-> sink, n |-> orig, expect |-> IF panic THEN -2 ELSE out,
+Emit == stage = "done" => EmitLine([t |-> opts.t, f |-> opts.f, r |-> opts.r, sink |-> sink, n |-> orig, fails |-> fails, expect |-> IF panic THEN -2 ELSE out,
                                     limit |-> Limit(sink, opts)])
 =============================================================================
